@@ -29,6 +29,18 @@ CHECKS.update({
                 ref="DESIGN.md §5 C10"),
 })
 
+CHECKS.update({
+    "C05": dict(technique="kernel-call monitor vs specmodel compression function: every kernel by symbol (C portable, C intrinsics, Unix asm, Windows-GNU asm via ms_abi trampoline, dispatcher under 5 feature masks) and through blake3::platform::Platform in asm/intr/pure crate flavours",
+                text="Structural parameters (block_len x flags, num_inputs x blocks x increment, xof block counts) are enumerated, data/counter classes/alignments seeded; each output is compared bit-exactly with the specification's compression function.",
+                ref="DESIGN.md §5 C05"),
+    "C06": dict(technique="C op-script API histories (init variants, update splits, finalize/finalize_seek, reset, struct copy) under every g_cpu_features mask in assembly and intrinsics builds, expected bytes from specmodel with the Rust crate as third voice; memcmp state monitor around finalize",
+                text="blake3_hasher histories are executed by the C driver and every finalize output S[seek..seek+len] is compared with the model; finalize must leave the object bytewise unchanged, reset must equal a fresh init on all live fields, the two derive-key initialisers must agree.",
+                ref="DESIGN.md §5 C06"),
+    "C07": dict(technique="guard pages + exact-window canaries + read-only/shadowed inputs around every native call, register-sentinel trampolines (SysV and Win64) for every assembly entry point, ASan+UBSan builds, valgrind memcheck (<= AVX2), Miri on the Rust intrinsics and API histories",
+                text="The C05 kernel sweep and the C06 API histories are re-executed with every pointer argument flush against an inaccessible page (either side) or misaligned inside a canary field; faults, canary damage, modified inputs, clobbered callee-saved registers/rsp/DF and tool reports attributed to BLAKE3 frames are violations.",
+                ref="DESIGN.md §5 C07"),
+})
+
 NOT_YET = {}
 
 def main():
